@@ -183,7 +183,7 @@ def run(ctx, rep, tier):
     pushes = []
     for fn in scope:
         for x in walk(fn.body):
-            if x.get("kind") == "CXXMemberCallExpr" and callee_info(x)["name"] == "push_back":
+            if x.get("kind") == "CXXMemberCallExpr" and callee_info(x)["name"] in ("push_back", "emplace_back"):
                 oc_ = canon(callee_info(x)["obj"])
                 if oc_[0] == "index" and oc_[1][0] == "var" and "vector<std::vector<int" in qt(callee_info(x)["obj"].get("_p") or {}) + " " + _decl_type(fn, oc_[1][1]):
                     pushes.append((fn, x))
@@ -243,6 +243,8 @@ def run(ctx, rep, tier):
             ok, why = move_under_feasible_witness(ctx, f, x, val_q)
             if ok:
                 rep.holds("MV", x, f, "%s in %s" % (q.split("::")[-1], f.short), why)
+            elif ok is None:
+                rep.unknown("MV", x, f, "%s in %s" % (q.split("::")[-1], f.short), why)
             else:
                 rep.violation("MV", x, f, "%s in %s" % (q.split("::")[-1], f.short), why, key="%s|move without feasibility witness" % f.short)
     # ---- R1 ----
@@ -343,7 +345,15 @@ def move_under_feasible_witness(ctx, f, call, val_q):
         if c[0] == "var" and val is True:
             wit = c
     if wit is None:
-        return False, "move not dominated by a 'found' witness"
+        # the witness may live in a small local object (`selection.found`), set by one of its member functions
+        objw = None
+        for ast, val, _e in g.dom_edges(n):
+            c = canon(ast)
+            if c[0] == "field" and c[2][0] == "var" and val is True:
+                objw = c
+        if objw is None:
+            return False, "move not dominated by a 'found' witness"
+        return _object_witness(ctx, f, objw, val_q)
     from .common import assignments_to
     sets = [(x, r) for x, r in assignments_to(f, wit[1]) if canon(r) == ("lit", True)]
     if not sets:
@@ -360,3 +370,41 @@ def move_under_feasible_witness(ctx, f, call, val_q):
         if not ok:
             return False, "witness set at %s without a dominating `feasible` from %s" % (loc_str(x), short(val_q))
     return True, "witness %s set only under feasible == true of %s" % (wit[2], short(val_q))
+
+
+def _object_witness(ctx, f, objw, val_q):
+    """Witness kept in a field of a local object: every `field = true` in a member function of the object's class is dominated
+    by the `feasible` component (first binding) of a pair-valued parameter, and every call of that member function on the object
+    passes the result of the value function for that parameter. Returns (True/None, why): never a refutation."""
+    fq, obj = objw[1], objw[2]
+    setters = []
+    for h in ctx.prog.all_funcs(with_lambdas=False):
+        if h.body is None:
+            continue
+        for x in walk(h.body):
+            if x.get("kind") == "BinaryOperator" and x.get("opcode") == "=":
+                l, r = children(x)
+                if canon(l) == ("field", fq, ("this",)) and canon(r) == ("lit", True):
+                    setters.append((h, x))
+    if not setters:
+        return None, "witness %s.%s is a field of a local object; no member function sets it to true" % (obj[2], fq.split("::")[-1])
+    for h, x in setters:
+        hg = cfg_of(h)
+        pidx = None
+        for ast, val, _e in hg.dom_edges(hg.node_for(x)):
+            c = canon(ast)
+            if c[0] == "var" and val is True:
+                bs = binding_source(h, c[1])
+                if bs and bs[1] == 0 and bs[0][0] == "var":
+                    pidx = [i for i, p_ in enumerate(h.params) if p_.get("id") == bs[0][1]] or None
+        if not pidx:
+            return None, "witness %s set in %s, not under the feasibility component of a parameter" % (fq.split("::")[-1], h.short)
+        calls = [y for y in walk(f.body) if y.get("kind") == "CXXMemberCallExpr" and ctx.eff.resolve_callee(y)[1] == [h]
+                 and callee_info(y)["obj"] is not None and canon(callee_info(y)["obj"]) == obj]
+        if not calls:
+            return None, "%s is never called on %s" % (h.short, obj[2])
+        for y in calls:
+            a = canon(callee_info(y)["args"][pidx[0]])
+            if not (a[0] == "call" and a[1] == val_q):
+                return None, "%s receives %s, not the result of %s" % (h.short, pretty(a)[:40], short(val_q))
+    return True, "witness %s.%s set only by %s under the feasible component of %s" % (obj[2], fq.split("::")[-1], setters[0][0].short, short(val_q))
